@@ -59,6 +59,7 @@ func observeOracle(env *Env) V {
 
 func runOracleCase(seed uint64, nOps int, restart bool, stats map[string]int) (V, V) {
 	rng := &Rng{s: seed}
+	lastCaseHashes = nil
 	tokens := []*types.TokenInfo{{Id: 1, Denom: "hub", ChainId: "minter", ExternalTokenId: "1", ExternalDecimals: 18, Commission: sdk.ZeroDec()}}
 	if rng.Chance(1, 2) {
 		tokens = append(tokens, &types.TokenInfo{Id: 2, Denom: "usdx", ChainId: "minter", ExternalTokenId: "2", ExternalDecimals: 6, Commission: sdk.ZeroDec()})
@@ -95,6 +96,9 @@ func runOracleCase(seed uint64, nOps int, restart bool, stats map[string]int) (V
 	record := func(op V, code int64) {
 		ops = append(ops, op)
 		outs = append(outs, L(I(code), observeOracle(env)))
+		if detMode {
+			lastCaseHashes = append(lastCaseHashes, env.StateHash())
+		}
 	}
 	setVals := func() {
 		env.Staking.Vals = nil
